@@ -513,7 +513,14 @@ def run_check(prop_cls, tier: str, seed: int, replay: str | None = None) -> int:
 
     n = prop.N_QUICK if tier == 'quick' else prop.N_THOROUGH
     n = int(os.environ.get('VERIF_CASES', n))
-    shards = max(1, min(prop.SHARDS, int(os.environ.get('VERIF_JOBS', os.cpu_count() or 1)), max(1, n)))
+    ncpu = os.cpu_count() or 1
+    if 'VERIF_JOBS' not in os.environ:
+        # do not pile 16 more processes onto a machine that is already saturated (several checks running at once)
+        try:
+            ncpu = max(4, ncpu - int(os.getloadavg()[0]))
+        except OSError:
+            pass
+    shards = max(1, min(prop.SHARDS, int(os.environ.get('VERIF_JOBS', ncpu)), max(1, n)))
     corpus = prop.corpus()
     jobs = []
     for s in range(shards):
